@@ -407,7 +407,24 @@ func sequential(i int) {
 			if rng.Intn(2) == 0 {
 				opts = append(opts, regclient.WithManifestCheckReferrers())
 			}
-			err := rc.ManifestDelete(ctx, b.ref(man.Digest), opts...)
+			// the manifest may be named by digest alone or by a pinned reference (a tag that resolves to it
+			// plus the digest): both name the same manifest for a delete
+			rDel := b.ref(man.Digest)
+			if rng.Intn(3) == 0 {
+				var ts []string
+				for tt, d := range md.T {
+					if d == man.Digest && !strings.ContainsAny(tt, "/@:") {
+						ts = append(ts, tt)
+					}
+				}
+				sort.Strings(ts)
+				if len(ts) > 0 {
+					rDel = b.ref(ts[0]).AddDigest(man.Digest)
+					rec.Op = "manifestDelete(pinned " + ts[0] + ")"
+					run.Count("manifest_deletes_by_pinned_reference", 1)
+				}
+			}
+			err := rc.ManifestDelete(ctx, rDel, opts...)
 			switch {
 			case err == nil && md.M[man.Digest]:
 				rec.Result = "ok"
